@@ -556,3 +556,165 @@ def norm_calc(t):
     if isinstance(t, tuple) and t and t[0] in ('CCat', 'Cat'):
         return ('C', tuple(norm_calc(x) for x in t[1]))
     return ('?', repr(t))
+
+
+# ============================================================================= the check
+def _work(job):
+    kind, seed, spec, modes = job
+    try:
+        if spec is None:
+            spec = CG.gen(random.Random(seed))
+        ob = observe(spec, seed, modes=modes, wseed=seed % 7)
+        return kind, seed, spec, ob, None
+    except Exception:
+        return kind, seed, spec, None, traceback.format_exc()
+
+
+def _modes(rng, quick):
+    extra = rng.choice(['min', 'all', 'first-dead', 'alternate', 'random'])
+    return ('random', extra) if quick else ('random', 'random', extra, 'min')
+
+
+def b2c(bits):
+    return '[' + '; '.join('true' if b else 'false' for b in bits) + ']'
+
+
+def run(ctx):
+    built = ctx.build()
+    ctx.rule = ('corpus of minimized failures first, then seeded architectures from the C09 grammar (c09_gen.py: stems, conv/depthwise/residual blocks, channel-cat of 2..3 tensors of '
+                'searchable / excluded / network-input / depthwise / nested-cat origin incl. repeated operands, time-axis cat, depthwise after cat, add with a cat operand, standalone BatchNorm, '
+                'flatten fn/method/module with start_dim 1 and 2 and spatial size 1 and >1, squeeze/unsqueeze fn/method with positive/negative dims, cat of flattened tensors, exclusion by name and by type, '
+                'autoconvert_layers=False with user-placed PIT layers, two network inputs) x mask assignments per masker (random, only keep-alive, all, first dead, alternating); '
+                'non-trivial = at least one join (add/cat) or exclusion and at least one pruned feature; distinct = distinct (architecture, masks)')
+    n_arch = 140 if ctx.quick else 900
+    jobs = [('corpus:' + name, 7, spec, ('random', 'min', 'all')) for name, spec in corpus()]
+    base = ctx.rng.randrange(1 << 30)
+    for k in range(n_arch):
+        jobs.append(('gen', base + k, None, _modes(ctx.rng, ctx.quick)))
+    from concurrent.futures import ProcessPoolExecutor
+    import multiprocessing as mp
+    with ProcessPoolExecutor(max_workers=min(NPROC, 10), mp_context=mp.get_context('fork')) as ex:
+        results = list(ex.map(_work, jobs, chunksize=4))
+    cases = []
+    for kind, seed, spec, ob, err in results:
+        if err is not None:
+            ctx.violation('harness-crash', {'seed': seed, 'kind': kind, 'traceback': err}, 'case generation / observation crashed: ' + err.strip().split('\n')[-1], no_input=True)
+            continue
+        desc = CG.describe(spec)
+        for p in spec.get('productions', []):
+            ctx.dist[p.split(':')[0] if p.startswith('cat:') else p] += 1
+        bad = judge(spec, ob)
+        joins = any(nd['k'] in ('add', 'sub', 'cat') for nd in spec['nodes']) or spec.get('exclude_names') or spec.get('exclude_types')
+        for r in ob.get('runs', [{'mode': '-', 'masks': {}}]):
+            pruned = any(not all(v) for v in r['masks'].values())
+            ctx.case((desc, sorted(r['masks'].items())), nontrivial=bool(joins and pruned), kind='arch:' + kind.split(':')[0],
+                     sample={'arch': desc, 'masks': {str(k): ''.join('1' if b else '0' for b in v) for k, v in r['masks'].items()},
+                             'in_features': {str(i): d.get('in_features') for i, d in r.get('layers', {}).items()}})
+        seen = set()
+        for sym, detail in bad:
+            key = key_of(sym, spec)
+            if key in seen:
+                continue
+            seen.add(key)
+            ctx.violation(key, {'spec': spec, 'mask_seed': seed, 'wseed': seed % 7, 'modes': [r['mode'] for r in ob.get('runs', [])] or ['random'], 'arch': desc,
+                                'requires': 'in_features == number of alive features of the tensor feeding the layer; equal alive sets on both sides of a sum; export() succeeds and the exported network runs on an input of the original shape',
+                                'observed': detail}, '%s on %s: %s' % (key, desc, detail))
+        cases.append((kind, seed, spec, ob))
+
+    # ---- the model on the same inputs
+    mism = []
+    model_ok = built
+
+    def mm(what, spec, info):
+        mism.append((what, CG.describe(spec), info))
+    if built:
+        try:
+            ok_cases = [c for c in cases if c[3]['construct'] == 'ok']
+            exprs = []
+            for kind, seed, spec, ob in ok_cases:
+                net = coq_net(spec)
+                exprs.append('run_static true %s' % net)
+                for r in ob['runs']:
+                    m = '[' + '; '.join('(%d, %s)' % (i, b2c(r['masks'][mk[0]])) for i, mk in sorted(ob['maskers'].items()) if mk is not None) + ']'
+                    exprs.append('run_masks true %s %s' % (net, m))
+            vals = ctx.coq_eval_sharded('cases', ['Plinio.Model.Calc'], '', exprs, shard=120)
+            k = 0
+            for kind, seed, spec, ob in ok_cases:
+                wfv, flags, calcv, maskv, names = vals[k]
+                k += 1
+                auto = spec.get('autoconvert', True)
+                ctx.corr += 1
+                if wfv is not True or names is not True:
+                    mm('wf/names_ok', spec, (wfv, names))
+                for i, f in ob['flags'].items():
+                    ctx.corr += 1
+                    if list(flags[i]) != list(f):
+                        mm('flags', spec, (i, flags[i], f))
+                mc = {int(i): norm_calc(c) for i, c in calcv}
+                ic = {i: norm_calc(c) for i, c in ob['calc'].items()}
+                ctx.corr += 1
+                if mc != ic:
+                    mm('calculator terms', spec, {'model': mc, 'impl': ic})
+                if auto:
+                    mmk = {int(i): (None if v is None else (int(v[1][0]), bool(v[1][1]))) for i, v in maskv}
+                    imk = {i: (None if v is None else (v[0], v[1])) for i, v in ob['maskers'].items()}
+                    ctx.corr += 1
+                    if mmk != imk:
+                        mm('sharing partition / frozen', spec, {'model': mmk, 'impl': imk})
+                for r in ob['runs']:
+                    lay, exp, shp, snd, cons = vals[k]
+                    k += 1
+                    for i, feat, mask, al in lay:
+                        d = r['layers'].get(int(i), {})
+                        ctx.corr += 3
+                        if d.get('features') != float(feat) or d.get('features_mask') != list(mask) or d.get('in_features') != sum(mask):
+                            mm('features / features_mask / in_features', spec, {'layer': int(i), 'model': (feat, mask), 'impl': d, 'masks': r['masks']})
+                        if list(al) != r.get('alive_ref', {}).get(int(i)):
+                            mm('alive (Coq ground truth vs python reference)', spec, {'layer': int(i), 'model': al, 'python': r.get('alive_ref', {}).get(int(i))})
+                    if r['export'] == 'ok':
+                        for i, cin, xw in exp:
+                            e = r['exported'].get(int(i))
+                            ctx.corr += 1
+                            if e is None or e[0] != cin or e[1] != xw:
+                                mm('exported widths', spec, {'layer': int(i), 'model': (cin, xw), 'impl': e, 'masks': r['masks']})
+                    ctx.corr += 1
+                    if (shp is True) != (r['export'] == 'ok' and r.get('export_forward') == 'ok'):
+                        mm('shape_ok vs exported network runs', spec, {'model': shp, 'impl': (r['export'], r.get('export_forward'))})
+                    if snd is not True or (auto and cons is not True):
+                        mm('sound_b / consistent_b (premises of the theorems)', spec, {'sound_b': snd, 'consistent_b': cons, 'masks': r['masks']})
+        except (RuntimeError, AssertionError, KeyError, IndexError, TypeError, ValueError) as ex:
+            model_ok = False
+            ctx.notes.append('model evaluation failed: ' + (str(ex) or repr(ex))[-1500:] + traceback.format_exc()[-800:])
+
+    ctx.extra['model_impl_mismatches'] = len(mism)
+    if mism:
+        ctx.notes.append('first mismatches: ' + repr(mism[:3])[:3000])
+    if not ctx.violations and not ctx.known_printed:
+        if not built:
+            ctx.violation('proof-broken', {'theorems': [o[0] for o in ctx.obligations if not o[1]], 'log': getattr(ctx, 'broken_log', '')[-3000:]}, 'Props/C09.v no longer checks', no_input=True)
+        elif not model_ok:
+            ctx.violation('model-eval-broken', {'notes': ctx.notes}, 'the model could not be evaluated', no_input=True)
+        elif mism:
+            what, desc, info = mism[0]
+            ctx.violation('correspondence-broken', {'what': what, 'arch': desc, 'info': info, 'n_mismatches': len(mism), 'correspondence': 'Model/Calc.v vs plinio.graph.annotation / features_calculation / methods.pit.graph'},
+                          'model and implementation disagree on %d observations (first: %s on %s: %r) but the property oracle found no failing input' % (len(mism), what, desc, info), no_input=True)
+
+
+def replay(r):
+    print(json.dumps({k: v for k, v in r.items() if k != 'spec'}, indent=1)[:3000])
+    spec = r.get('spec')
+    if spec is None:
+        print('no input in this replay file (machinery failure)')
+        return 1
+    spec['exclude_names'] = [int(x) for x in spec.get('exclude_names', [])]
+    if not spec['exclude_names']:
+        spec.pop('exclude_names')
+    print('architecture:', CG.describe(spec))
+    ob = observe(spec, r.get('mask_seed', 0), modes=tuple(r.get('modes', ['random'])), wseed=r.get('wseed', 0))
+    bad = judge(spec, ob)
+    print('required: in_features == alive input features for every converted layer; equal alive sets at sums; export succeeds and the exported network runs')
+    for sym, detail in bad:
+        print('  FAILS  %s: %s' % (key_of(sym, spec), detail))
+    if not bad:
+        print('  holds on this case (%d mask assignments)' % len(ob.get('runs', [])))
+    return 1 if bad else 0
